@@ -59,6 +59,11 @@ pub struct Case {
     /// index into MACRO_ARGS
     #[serde(default)]
     pub macro_arg: usize,
+    /// a second file with a top-level function of the SAME name that is not a command:
+    /// 0 none; 1 in a file that sorts later, with a channel parameter; 2 later, without parameters;
+    /// 3 in a file that sorts earlier, with a channel parameter
+    #[serde(default)]
+    pub namesake: u8,
 }
 
 impl Case {
@@ -77,7 +82,15 @@ impl Case {
             s.push_str(&format!("{}: {}, ", NAMES[p.1], self.rust_type(p)));
         }
         s.push_str(") -> Result<i32, String> { Ok(1) }\n");
-        Project::single(s)
+        if self.namesake == 0 {
+            return Project::single(s);
+        }
+        let other = match self.namesake {
+            2 => "pub fn do_thing() -> i32 { 1 }\n".to_string(),
+            _ => "use tauri::ipc::Channel;\npub fn do_thing(id: i32, on_unrelated_event: Channel<String>, extra_flag: bool) -> i32 { 1 }\n".to_string(),
+        };
+        let (cmd_file, other_file) = if self.namesake == 3 { ("src/z_commands.rs", "src/a_services.rs") } else { ("src/commands.rs", "src/services/do_thing.rs") };
+        return Project { files: vec![(cmd_file.into(), s), (other_file.into(), other)], links: vec![] };
     }
     /// the key Tauri reads for a Rust parameter name: the macro's rename_all argument, else the
     /// configured parameter case, else Tauri's default (lower camel case)
@@ -362,6 +375,7 @@ fn mk(case: &Case, class: &str, detail: String) -> Violation {
         .field("case", case.case.clone().unwrap_or("-".into()))
         .field("mode", if case.zod { "zod" } else { "none" })
         .field("macro", MACRO_ARGS[case.macro_arg].0)
+        .field("namesake", case.namesake.to_string())
         .rank(case.params.len() as u64 * 2 + if case.macro_arg > 0 { 1 } else { 0 })
 }
 
@@ -423,7 +437,7 @@ pub fn run(tier: Tier) -> CheckResult {
             for c in &cases_opt {
                 for zod in [false, true] {
                     for variant in 0..(if matches!(k, PKind::Injected(_)) { 1 } else { 3 }) {
-                        cases.push(Case { params: vec![(*k, n, variant)], case: c.clone(), zod, macro_arg: 0 });
+                        cases.push(Case { params: vec![(*k, n, variant)], case: c.clone(), zod, macro_arg: 0, namesake: 0 });
                     }
                 }
             }
@@ -440,7 +454,7 @@ pub fn run(tier: Tier) -> CheckResult {
                 }
                 for c in [None, Some("snake_case".to_string()), Some("PascalCase".to_string())] {
                     for zod in [false, true] {
-                        cases.push(Case { params: vec![(k, n, 0)], case: c.clone(), zod, macro_arg });
+                        cases.push(Case { params: vec![(k, n, 0)], case: c.clone(), zod, macro_arg, namesake: 0 });
                     }
                 }
             }
@@ -484,8 +498,10 @@ pub fn run(tier: Tier) -> CheckResult {
             if MACRO_ARGS[macro_arg].1 == Some("snake") && params.iter().any(|p| NAMES[p.1].trim_start_matches("r#").to_snake_case() != NAMES[p.1].trim_start_matches("r#")) {
                 macro_arg = 0;
             }
-            cases.push(Case { params: params.clone(), case: c.clone(), zod: false, macro_arg });
-            cases.push(Case { params, case: c, zod: true, macro_arg });
+            cases.push(Case { params: params.clone(), case: c.clone(), zod: false, macro_arg, namesake: 0 });
+            // every list once more next to a same-named non-command function in another file
+            cases.push(Case { params: params.clone(), case: c.clone(), zod: i % 2 == 0, macro_arg: 0, namesake: 1 + (i % 3) as u8 });
+            cases.push(Case { params, case: c, zod: true, macro_arg, namesake: 0 });
         }
     }
     // (3) the configured case changes between two runs into the same output directory (real binary
@@ -498,7 +514,7 @@ pub fn run(tier: Tier) -> CheckResult {
             }
             for zod in [false, true] {
                 for build in [false, true] {
-                    hist.push((Case { params: vec![(PKind::Value, 1, 0), (PKind::Optional, 2, 0), (PKind::Channel, 8, 0), (PKind::Injected(0), 0, 0)], case: after.clone(), zod, macro_arg: 0 }, before.clone(), build));
+                    hist.push((Case { params: vec![(PKind::Value, 1, 0), (PKind::Optional, 2, 0), (PKind::Channel, 8, 0), (PKind::Injected(0), 0, 0)], case: after.clone(), zod, macro_arg: 0, namesake: 0 }, before.clone(), build));
                 }
             }
         }
@@ -556,7 +572,7 @@ pub fn run(tier: Tier) -> CheckResult {
     res.coverage.set("cases", cases.len() as u64);
     res.coverage.set("exhaustive", exhaustive);
     res.coverage.set("samples", json!(cases.iter().step_by((cases.len() / 5).max(1)).take(5).collect::<Vec<_>>()));
-    res.coverage.set("rule", "one command per project; parameter lists: every single parameter kind (value, Option, Channel<T> in 3 spellings, 13 spellings of injected parameters) x 11 names x {default, 6 naming-case settings} x both modes, plus all ordered lists of length 2..4 (quick) / 2..5 (thorough) over the kinds menu (lists of four and more over the eight-kind menu); oracle: key sets of the declared parameter type, of the parameter schema and of the object expression reaching invoke (spreads and safeParse results resolved through the parsed AST) equal {case(name) | frontend-filled parameter}, case = heck lowerCamelCase by default (what tauri-macros applies) / serde's field rule for a configured case / the macro's own rename_all argument (#[tauri::command(rename_all = \"snake_case\")], with async / root arguments beside it) before either; omittable iff Option; plus every ordered pair of parameter-case settings as two consecutive runs of the real binary / build path into one output directory (the keys follow the second setting). Non-trivial = accepted and output parsed.");
+    res.coverage.set("rule", "one command per project; parameter lists: every single parameter kind (value, Option, Channel<T> in 3 spellings, 13 spellings of injected parameters) x 11 names x {default, 6 naming-case settings} x both modes, plus all ordered lists of length 2..4 (quick) / 2..5 (thorough) over the kinds menu (lists of four and more over the eight-kind menu); oracle: key sets of the declared parameter type, of the parameter schema and of the object expression reaching invoke (spreads and safeParse results resolved through the parsed AST) equal {case(name) | frontend-filled parameter}, case = heck lowerCamelCase by default (what tauri-macros applies) / serde's field rule for a configured case / the macro's own rename_all argument (#[tauri::command(rename_all = \"snake_case\")], with async / root arguments beside it) before either; omittable iff Option; every list once more next to a file that holds a non-command function of the command's name (with other parameters, sorting before or after the command's file); plus every ordered pair of parameter-case settings as two consecutive runs of the real binary / build path into one output directory (the keys follow the second setting). Non-trivial = accepted and output parsed.");
     res.assumptions = vec!["parameter names are snake_case identifiers (on those heck and serde's camelCase agree)".into()];
     res
 }
